@@ -272,6 +272,14 @@ pub fn cases(tier: Tier) -> Vec<Case> {
             }
         }
     }
+    // closures of more than a year (any scan limit of a year's length would show)
+    for r in [365i64, 366, 367, 400, 430, 800] {
+        for start in [0i64, 9, 20, 22, 31] {
+            for b in [0i64, 2] {
+                out.push(Case::Run { r, start, b });
+            }
+        }
+    }
     out
 }
 
@@ -296,7 +304,7 @@ pub fn run(ctx: &Ctx, replay_file: Option<String>) -> ! {
          split the N / B days), CalType and, for B-free words, Cal; month boundary after every position 0..W on three \
          anchors (leap Feb->Mar, common Feb->Mar, Dec->Jan); every date of the window +-2, 5 modifiers, both \
          settlement flags. (2) all 14 built-in calendars and 5 named unions over EVERY date 1970-2200. (3) all 127 \
-         week masks x 5 settlement masks x every holiday subset of one week. (4) long runs of 12..70 consecutive closures \
+         week masks x 5 settlement masks x every holiday subset of one week. (4) long runs of 12..70 and of 365, 366, 367, 400, 430, 800 consecutive closures \
          at every alignment against two month ends, with and without settlement closures right after the run. Oracle: linear searches on a bitmap of \
          the calendar's definition (the word / the week masks and holidays) - for the named calendars, of their own \
          is_bus_day / is_settlement: following = first eligible >= d, previous = last eligible \
